@@ -690,6 +690,10 @@ def extra_stage(tier, rng, work):
                     bad.append((i, "bb-mismatch", "%s %d: first request on the connection observed %s" % (kind, k, cl[:1])))
                 elif len(cl) < 2:
                     bad.append((i, "bb-no-result", "%s %d: the second request was not sent (first: eof=%s)" % (kind, k, rs[0]["eof"])))
+                elif kind == "reuse_stall" and cl[1] == "default 504" and rs[1].get("ms", 0) > 2500:
+                    # back_timeout is 1 s, front_timeout 3 s: the 504 must come from the backend timer
+                    bad.append((i, "bb-late-answer", "%s %d: the 504 of the second request came after %d ms: the backend timer (1 s) of the reused connection did not fire"
+                                % (kind, k, rs[1]["ms"])))
                 elif cl[1] not in want:
                     bad.append((i, "bb-reuse", "%s %d: the second request on the reused connections observed '%s', the automaton predicts %s"
                                 % (kind, k, cl[1], want)))
@@ -756,6 +760,8 @@ def extra_stage(tier, rng, work):
                 bad.append((i, "bb-no-answer", "%s %d: no answer: the backend was lost after a complete response head, nothing was forwarded and the connection was closed after %d ms without any response" % (kind, k, rs[0].get("ms", 0))))
             if got == "relay" and blen is not None and rs[0]["body"] != blen:
                 bad.append((i, "bb-body", "%s %d: relayed body has %d bytes, backend sent %d" % (kind, k, rs[0]["body"], blen)))
+            if kind == "stall" and got == "default 504" and rs[0].get("ms", 0) > 2500:
+                bad.append((i, "bb-late-answer", "%s %d: the 504 came after %d ms: the backend timer (1 s) did not fire" % (kind, k, rs[0]["ms"])))
         return bad
 
     rc, res, err = run_bb(scns, work, "0")
